@@ -183,12 +183,20 @@ func runC17(c *core.Ctx) {
 	for _, g := range generic {
 		c.Analysed(core.FuncName(g))
 		key := g.Name()
-		if len(g.AnonFuncs) != 1 || len(g.AnonFuncs[0].AnonFuncs) != 1 {
+		// the per-call function is the closure the constructor returns; the effect is the closure that one hands to the
+		// MonadIO constructor (other closures - deferred functions, trace helpers - do not matter)
+		perCall := core.ReturnedClosure(p, g)
+		var eff *ssa.Function
+		if perCall != nil {
+			eff = core.ClosureArgOf(p, perCall, func(cc *ssa.CallCommon) bool {
+				h := core.Callee(cc)
+				return h != nil && h.Signature.Results().Len() == 1 && core.TypeName(h.Signature.Results().At(0).Type()) == "MonadIODef"
+			})
+		}
+		if perCall == nil || eff == nil {
 			c.Unknown("R2", key, p.Pos(g.Pos()), "expected constructor → per-call function → effect closure")
 			continue
 		}
-		perCall := g.AnonFuncs[0]
-		eff := perCall.AnonFuncs[0]
 		// laziness: own bodies of g and perCall make no dynamic call and call only the MonadIO builder
 		bad := ""
 		for _, f := range []*ssa.Function{g, perCall} {
